@@ -90,6 +90,18 @@ def set_module_context(tree):
 
 
 def alloc_kind(v):
+    if isinstance(v, ast.IfExp):
+        # `list(x) if cond else None`: allocated on one branch is allocated
+        for k in (alloc_kind(v.body), alloc_kind(v.orelse)):
+            if k != "value":
+                return k
+        return "value"
+    if isinstance(v, ast.BoolOp):
+        for x in v.values:
+            k = alloc_kind(x)
+            if k != "value":
+                return k
+        return "value"
     if isinstance(v, (ast.List, ast.Dict, ast.Set, ast.ListComp, ast.DictComp, ast.SetComp)):
         return "mutable"
     if isinstance(v, ast.GeneratorExp):
